@@ -156,8 +156,8 @@ class C16(HsProp):
                 out.append(gen_hs.hc_case('hb%d' % k, b'ws://example.com/', ops=['r', 'r'],
                                           rds=['d:' + hx(data[:cut1]), 'd:' + hx(data[cut1:cut2]), 'd:' + hx(data[cut2:])])); k += 1
         # frame bytes arriving with the head while read_buffer_size is smaller than that tail
-        for rbs in (0, 1, 8, 64):
-            big = ws.encode_frame(2, bytes(range(100)))
+        for rbs, nbig in ((0, 100), (1, 100), (8, 100), (64, 100), (4096, 300), (0, 300), (4096, 3000), (64, 3000)):
+            big = ws.encode_frame(2, bytes(i & 255 for i in range(nbig)))     # with 300+ bytes the leftover is longer than the head itself
             out.append(gen_hs.hc_case('ht%d' % k, b'ws://example.com/', ops=['r', 'r', 'r'],
                                       rds=['d:' + hx(gen_hs.response_bytes([(b'Upgrade', b'websocket'), (b'Connection', b'Upgrade'), (b'Sec-WebSocket-Accept', gen_hs.ACCEPT_MARK)]) + frame1 + big + frame2)], rbs=rbs)); k += 1
         # extra headers that clash with the mandatory ones (any case): the URL-derived / generated values must win
@@ -288,6 +288,16 @@ class C17(HsProp):
             head = gen_hs.big_valid_request(total)
             for chunks in ([head], [head[i:i + 4096] for i in range(0, len(head), 4096)], [head[i:i + 1000] for i in range(0, len(head), 1000)]):
                 out.append(gen_hs.hs_case('sg9_%d' % k, 'none', ['r'], gen_hs.rds_of(chunks), [], [])); k += 1
+        # the end of the head arrives in the same read as MORE bytes than the head is long (a large first frame / a large error body):
+        # what follows the head is handed on exactly once, under every cut of the head
+        bigf = ws.encode_frame(2, bytes((i * 3) & 255 for i in range(400)))
+        r404 = gen_hs.response_bytes([(b'Content-Length', b'600')], status=b'404 Not Found') if 'status' in gen_hs.response_bytes.__code__.co_varnames else None
+        for cut in (0, 1, len(resp) // 2, len(resp) - 1):
+            rds = (['d:' + hx(resp[:cut])] if cut else []) + ['d:' + hx(resp[cut:] + bigf)]
+            out.append(gen_hs.hc_case('cgt%d' % k, b'ws://example.com/', ops=['r', 'r'], rds=rds)); k += 1
+            if r404:
+                rds = (['d:' + hx(r404[:cut])] if cut else []) + ['d:' + hx(r404[cut:] + b'B' * 600)]
+                out.append(gen_hs.hc_case('cgt%d' % k, b'ws://example.com/', ops=['r'], rds=rds)); k += 1
         # the read that completes a VALID head is also the read that trips a guard (65th small read; the read crossing 64 KiB):
         # the guard is applied to every read, so the outcome must be AttackAttempt, and one read earlier success
         def pieces(data, n):
@@ -342,7 +352,13 @@ class C17(HsProp):
     def monitor(self, case_line, trace, mline):
         kind = case_line.split(' ')[0]
         if kind in ('HS', 'HC'):
-            return monitors_hs.mon_c17(case_line, trace) or monitors_hs.mon_no_panic(trace)
+            v = monitors_hs.mon_c17(case_line, trace) or monitors_hs.mon_no_panic(trace)
+            if not v and kind == 'HC':
+                # "without losing or repeating a byte": what follows the response head is handed to the connection exactly once
+                w = monitors_hs.mon_c16(case_line, trace, mline)
+                if w and w.startswith('tail-lost'):
+                    v = w
+            return v
         return None
     def model_monitor(self, case_line, mtrace):
         if case_line.startswith('AC '):
